@@ -255,6 +255,11 @@ func (env *Env) ident(name string) Value {
 			}
 		}
 	}
+	if env.ex.pointArgs != nil && strings.HasPrefix(name, "arg") {
+		if k, err := strconv.Atoi(name[3:]); err == nil && k >= 0 && k < len(env.ex.pointArgs) {
+			return env.ex.pointArgs[k]
+		}
+	}
 	if name == "$i" && env.fr != nil && env.fr.curLoop != nil && env.fr.curLoop.rangeIx != nil {
 		cs := env.st.locals[env.fr.curLoop.rangeIx]
 		if cs != nil {
